@@ -17,14 +17,14 @@ RULE = ("For each of the exported optimizer classes Hypothesis draws parameter d
         "Oracle: cls() constructs; cls().optimize(task) raises ValueError before any cycle; ConfigClass(**d) accepts "
         "<=> set_config_parameters(d) accepts, rejections are ValidationError, on acceptance optimizer.configuration "
         "== ConfigClass(**d) (pydantic equality, same class); run equivalence (exact, as in C07) between "
-        "cls(ConfigClass(**d)).optimize(t) and o = cls(); o.set_config_parameters(d); o.optimize(t), also when a "
-        "different set_config_parameters preceded it on the same instance. Non-trivial = dictionary that differs from "
+        "cls(ConfigClass(**d)).optimize(t) and o = cls(); o.set_config_parameters(d); o.optimize(t), also when the instance "
+        "already had a different configuration (set earlier, or given to the constructor, with or without a run in between). Non-trivial = dictionary that differs from "
         "the documented-scale configuration in an algorithm field, or a rejected dictionary; distinct = SHA-256 of the "
         "case.")
 ASSUMPTIONS = ["the config class of an optimizer is <Optimizer>Config as frozen in baselines/fixture_configs.json",
                "a run that raises must raise alike on both sides (its cause is C06's business)"]
-BUDGET = {"quick": 40, "thorough": 400}
-RUNS_EVERY = 3
+BUDGET = {"quick": 60, "thorough": 500}
+RUNS_EVERY = 2
 
 
 def _mutate(draw, kw, params):
@@ -65,14 +65,18 @@ def case(draw, optimizer, tier):
     kw = dict(params)
     kw.update(cfg)                      # early_stopping stays a plain dict / None
     payload = {"optimizer": optimizer, "dict": kw, "mutation": None}
-    if draw(st.integers(0, 2)) == 0:
+    if draw(st.integers(0, 3)) == 0:
         payload["dict"], payload["mutation"] = _mutate(draw, kw, params)
     payload["with_run"] = draw(st.integers(0, RUNS_EVERY - 1)) == 0
     payload["previous"] = None
-    if draw(st.booleans()):
+    payload["previous_how"] = None
+    if draw(st.integers(0, 2)) > 0:
         prev = dict(params)
-        prev.update(draw(strategies.config_spec(optimizer, max_cycles=(1, 5), perturb=0.5)))
+        prev.update(draw(strategies.config_spec(optimizer, max_cycles=(1, 5), perturb=0.5, reverse_lists=True)))
         payload["previous"] = prev
+        # how the instance got its earlier configuration: set on a bare instance, given to the constructor, or set
+        # and then used for a run (so that anything computed lazily from it has been computed)
+        payload["previous_how"] = draw(st.sampled_from(["set", "constructor", "set_and_run", "constructor_and_run"]))
     payload["task"] = draw(strategies.task_spec(encodings=("cont_multi", "cont_multi", "mixed", "binary"), max_dim=4))
     payload["pre_noise"] = draw(st.integers(0, 10 ** 6))
     return payload
@@ -140,10 +144,16 @@ def laws(payload):
         ref, ref_err = None, e
     o = cls()
     if payload["previous"] is not None:
+        how = payload.get("previous_how") or "set"
         try:
-            o.set_config_parameters(copy.deepcopy(payload["previous"]))
+            if how.startswith("constructor"):
+                o = cls(cfg_cls(**copy.deepcopy(payload["previous"])))
+            else:
+                o.set_config_parameters(copy.deepcopy(payload["previous"]))
+            if how.endswith("_run") and not _too_large(payload["previous"]):
+                _run(o, payload["task"], payload["pre_noise"] + 2)
         except Exception:  # noqa: BLE001 - an invalid previous dict just leaves the optimizer unconfigured
-            pass
+            o = o if o.configuration is not None or how.startswith("set") else cls()
     try:
         o.set_config_parameters(copy.deepcopy(d))
         set_err = None
@@ -188,7 +198,7 @@ def run_shard(shard, tier, seed):
             return
         vio, nt = r
         ctx.case(payload, nt, ["mutation:" + str(payload["mutation"]), "with_run" if payload["with_run"] else "no_run",
-                               "after_previous_config" if payload["previous"] else "fresh_instance"])
+                               ("after_previous:" + str(payload.get("previous_how"))) if payload["previous"] else "fresh_instance"])
         ctx.judge(payload, vio)
 
     runner.drive(ctx, case(shard["optimizer"], tier), one, shard["n"], seed)
